@@ -1,1 +1,467 @@
-import AnyioModel.Kernel.Step
+/-
+C06  Deadlines — the reachability part, on the kernel model.
+
+"A cancel scope with a deadline is cancelled when, and only when, the event-loop clock reaches that
+deadline while the scope is active (immediately on entry if it has already passed), and assigning
+a new deadline re-arms it; a timeout never fires early, never after the scope was left, and is
+never missed."   Anchor: `_asyncio.py:405,413,444,479-481,573-579,652-654,667-679` — "one live
+timer per active, not yet cancelled scope with finite deadline".
+
+The pure-function part (what `_timeout()`, the `deadline` setter, `__enter__`, the `timeout s`
+callback and `fail_at` compute, for ALL states) is `Props/C06pure.lean`.  Here: what holds in every
+state reachable by any finite event list (`Reach st`), and step-local facts about transitions out
+of reachable states.  Invariant (`TInv`) and helper lemmas: `Kernel/TimerInv.lean` ..
+`TimerInv6.lean`.
+
+Loop structure of the model: `call_at` puts `(time, timeout s)` into `timers`; `beginCycle now`
+(`_run_once`) moves every timer with `time ≤ now` into the batch `cur`; `run h` runs one handle of
+the batch; `beginCycle` is enabled only when the batch is empty.
+
+One statement of the plan is false on a reachable state and was corrected: `timer → ¬cancelCalled`
+(see `C06_timer_armed` and the example after it).
+-/
+import AnyioModel.Kernel.TimerInv6
+import AnyioModel.Props.C06pure
+import AnyioModel.Props.C04pure
+
+namespace AnyioModel.Kernel
+
+/-! ### 1. one live timer per active, not yet cancelled scope with finite deadline -/
+
+/-- **C06_timer_armed.**  In every reachable state, for every scope `s`:
+* the `timer` flag (`_timeout_handle is not None and still live`) is set iff a `timeout s` callback
+  is pending, in the timer heap or in the batch being run;
+* such a callback never sits in the ready queue;
+* there is at most one of them overall;
+* one in the heap is at the scope's *current* deadline, which is still ahead of the clock;
+* one in the batch belongs to a deadline that is due;
+* a live timer belongs to an active (entered, not yet left) scope with a finite deadline;
+* an active, not yet cancelled scope with a finite deadline has a live timer.
+
+(`timer → ¬cancelCalled` does NOT hold: a scope cancelled *before* `__enter__` with a deadline
+still ahead gets a timer in `__enter__`, in the model as in `_asyncio.py:444` — `_timeout()` does
+not look at `_cancel_called`.  Harmless: when it fires `cancel()` is a no-op, `__exit__` and the
+`deadline` setter cancel it.  See the example below.) -/
+theorem C06_timer_armed {st : State} (hr : Reach st) (s : Nat) :
+    ((st.scopes s).timer = true ↔
+      (∃ w, (w, Handle.timeout s) ∈ st.timers) ∨ Handle.timeout s ∈ st.cur) ∧
+    Handle.timeout s ∉ st.ready ∧
+    (st.timers.filter (fun p => p.2 = Handle.timeout s)).length +
+      st.cur.count (Handle.timeout s) ≤ 1 ∧
+    (∀ w, (w, Handle.timeout s) ∈ st.timers → (st.scopes s).deadline = some w ∧ st.now < w) ∧
+    (Handle.timeout s ∈ st.cur → ∃ d, (st.scopes s).deadline = some d ∧ d ≤ st.now) ∧
+    ((st.scopes s).timer = true → (st.scopes s).active = true ∧ (st.scopes s).entered = true ∧
+      ∃ d, (st.scopes s).deadline = some d) ∧
+    (∀ d, (st.scopes s).active = true → (st.scopes s).cancelCalled = false →
+      (st.scopes s).deadline = some d → (st.scopes s).timer = true) :=
+  (tinv_reach hr).facts s
+
+/-- the live timer of an active, not yet cancelled scope, located: exactly one `timeout s` callback
+is pending; it is in the heap at the deadline iff the deadline is still ahead, and in the running
+batch iff the deadline is due -/
+theorem C06_one_live_timer {st : State} (hr : Reach st) {s d : Nat}
+    (ha : (st.scopes s).active = true) (hc : (st.scopes s).cancelCalled = false)
+    (hd : (st.scopes s).deadline = some d) :
+    (st.timers.filter (fun p => p.2 = Handle.timeout s)).length +
+      st.cur.count (Handle.timeout s) = 1 ∧
+    (st.now < d → (d, Handle.timeout s) ∈ st.timers ∧ Handle.timeout s ∉ st.cur) ∧
+    (d ≤ st.now → Handle.timeout s ∈ st.cur ∧ ∀ w, (w, Handle.timeout s) ∉ st.timers) := by
+  have hs := tinv_reach hr s
+  have ht := hs.live d ha hc hd
+  have hcnt := hs.count
+  rw [ht] at hcnt
+  simp only [if_true] at hcnt
+  have htm : ∀ w, (w, Handle.timeout s) ∈ st.timers → w = d ∧ st.now < d := by
+    intro w hw
+    have := hs.tm w (mem_tmL.2 hw)
+    rw [hd] at this
+    simp only [Option.some.injEq] at this
+    exact ⟨this.1.symm, by omega⟩
+  have hcu : Handle.timeout s ∈ st.cur → d ≤ st.now := by
+    intro hm
+    obtain ⟨d', h1, h2⟩ := hs.cu (List.count_pos_iff.2 hm)
+    rw [hd] at h1
+    simp only [Option.some.injEq] at h1
+    omega
+  refine ⟨by rw [← tmL_length]; exact hcnt, fun hlt => ?_, fun hdue => ?_⟩
+  · have hnc : Handle.timeout s ∉ st.cur := fun hm => by have := hcu hm; omega
+    have : st.cur.count (Handle.timeout s) = 0 := List.count_eq_zero.2 hnc
+    obtain ⟨w, hw⟩ := List.exists_mem_of_length_pos (show 0 < (tmL st.timers s).length by omega)
+    have hw' := mem_tmL.1 hw
+    rw [(htm w hw').1] at hw'
+    exact ⟨hw', hnc⟩
+  · have hnt : ∀ w, (w, Handle.timeout s) ∉ st.timers := fun w hw => by
+      have := (htm w hw).2; omega
+    have : (tmL st.timers s).length = 0 := by
+      cases hl : tmL st.timers s with
+      | nil => rfl
+      | cons w l => exact absurd (mem_tmL.1 (by rw [hl]; simp)) (hnt w)
+    exact ⟨List.count_pos_iff.1 (by omega), hnt⟩
+
+/-- the counter-example to `timer → ¬cancelCalled`: `scope = CancelScope(deadline=5);
+scope.cancel(); scope.__enter__()` at time 0 leaves a cancelled scope with a live timer -/
+example :
+    (runFrom step init [.mkScope false (some 5), .cancel 0, .enter 0]).map
+      (fun st => ((st.scopes 0).timer, (st.scopes 0).cancelCalled, (st.scopes 0).byDeadline,
+        st.timers)) =
+    some (true, true, false, [(5, .timeout 0)]) := by decide
+
+/-- **C06_hrec.**  The hypothesis `hrec` of `C04_exit_no_timer_left`, `C06_set_deadline_rearms`
+and `C06_set_deadline_no_stale_timer` holds in every reachable state: a scope whose `timer` flag is
+clear has no `timeout` callback anywhere in the loop. -/
+theorem C06_hrec {st : State} (hr : Reach st) (s : Nat) :
+    (st.scopes s).timer = false → NoTimeout st s :=
+  fun ht => (tinv_reach hr).noTimeout ht
+
+/-- ... in the form the two `deadline`-setter theorems take it -/
+theorem C06_hrec_timers {st : State} (hr : Reach st) (s : Nat) :
+    (st.scopes s).timer = false → ∀ w, (w, Handle.timeout s) ∉ st.timers :=
+  fun ht => (C06_hrec hr s ht).1
+
+/-- **C06_exit_no_timer_left_reach.**  After `__exit__` of a scope in a reachable state no
+`timeout s` callback is left anywhere in the loop (`C04_exit_no_timer_left` without its
+hypothesis). -/
+theorem C06_exit_no_timer_left_reach {st st' : State} (hr : Reach st) {t s : Nat} {ev : ExcVal}
+    {r : ExitResult} (h : exitScope st t s ev = some (st', r)) : NoTimeout st' s :=
+  C04_exit_no_timer_left h (C06_hrec hr s)
+
+/-- **C06_set_deadline_rearms_reach.**  `scope.deadline = d'` on an active, not yet cancelled
+scope in a reachable state (`C06_set_deadline_rearms` without its hypothesis): the old timer is
+dropped; with `d' = +∞` nothing is armed, with `d'` ahead exactly one timer at `d'` is armed, with
+`d'` already reached the scope is cancelled on the spot with reason "deadline". -/
+theorem C06_set_deadline_rearms_reach {st : State} (hr : Reach st) (s : Nat) (d' : Option Nat)
+    (hact : (st.scopes s).active = true) (hcc : (st.scopes s).cancelCalled = false) :
+    ((setDeadline st s d').scopes s).deadline = d' ∧
+    (setDeadline st s d').now = st.now ∧
+    match d' with
+    | none =>
+      ((setDeadline st s d').scopes s).cancelCalled = false ∧
+      ((setDeadline st s d').scopes s).timer = false ∧
+      (setDeadline st s d').timers = st.timers.filter (·.2 ≠ .timeout s)
+    | some d =>
+      if st.now < d then
+        ((setDeadline st s d').scopes s).cancelCalled = false ∧
+        ((setDeadline st s d').scopes s).timer = true ∧
+        (setDeadline st s d').timers = st.timers.filter (·.2 ≠ .timeout s) ++ [(d, .timeout s)]
+      else
+        ((setDeadline st s d').scopes s).cancelCalled = true ∧
+        ((setDeadline st s d').scopes s).byDeadline = true ∧
+        ((setDeadline st s d').scopes s).cancelTime = st.now ∧
+        ((setDeadline st s d').scopes s).timer = false ∧
+        (setDeadline st s d').timers = st.timers.filter (·.2 ≠ .timeout s) :=
+  C06_set_deadline_rearms st s d' hact hcc (C06_hrec_timers hr s)
+
+/-- no stale timer after a deadline assignment, in a reachable state -/
+theorem C06_set_deadline_no_stale_timer_reach {st : State} (hr : Reach st) (s : Nat)
+    (d' : Option Nat) (hact : (st.scopes s).active = true)
+    (hcc : (st.scopes s).cancelCalled = false) :
+    (∀ w, (w, Handle.timeout s) ∈ (setDeadline st s d').timers → d' = some w ∧ st.now < w) ∧
+    ((setDeadline st s d').timers.filter (·.2 = .timeout s)).length ≤ 1 ∧
+    (((setDeadline st s d').scopes s).timer = true ↔
+      ∃ w, (w, Handle.timeout s) ∈ (setDeadline st s d').timers) :=
+  C06_set_deadline_no_stale_timer st s d' hact hcc (C06_hrec_timers hr s)
+
+/-! ### 2. never missed -/
+
+/-- **C06_never_missed.**  If scope `s` is active, not cancelled, with deadline `d`, then the loop
+cycle that begins at a time `now' ≥ d` has the scope's timeout callback in its batch — exactly
+once, and no longer in the heap. -/
+theorem C06_never_missed {st st' : State} (hr : Reach st) {s d now' : Nat} {o : Out}
+    (ha : (st.scopes s).active = true) (hc : (st.scopes s).cancelCalled = false)
+    (hd : (st.scopes s).deadline = some d)
+    (hs : step st (.beginCycle now') = some (st', o)) (hdue : d ≤ now') :
+    Handle.timeout s ∈ st'.cur ∧ st'.cur.count (Handle.timeout s) = 1 ∧
+      (∀ w, (w, Handle.timeout s) ∉ st'.timers) :=
+  never_missed (tinv_reach hr) ha hc hd hs hdue
+
+/-- **C06_cycle_drains.**  Step-local: a cycle can only begin when no task is running and the
+previous batch has been run to the end (`_run_once` runs every handle it popped) — so a timeout
+callback that made it into a batch cannot be skipped by the next cycle; the clock is monotone. -/
+theorem C06_cycle_drains {st st' : State} {now' : Nat} {o : Out}
+    (hs : step st (.beginCycle now') = some (st', o)) :
+    st.running = none ∧ st.cur = [] ∧ st.now ≤ now' ∧ st'.now = now' :=
+  let ⟨a, b, c, d, _⟩ := beginCycle_spec hs
+  ⟨a, b, c, d⟩
+
+/-- **C06_handle_stays.**  A timeout callback in the batch stays in the batch across every
+transition unless the scope is left, is cancelled (which is also what running the callback does),
+or is given another deadline — the three operations that cancel the handle. -/
+theorem C06_handle_stays {st st' : State} (hr : Reach st) {e : Ev} {o : Out} {s : Nat}
+    (hm : Handle.timeout s ∈ st.cur) (hs : step st e = some (st', o)) :
+    Handle.timeout s ∈ st'.cur ∨ (st'.scopes s).active = false ∨
+      (st'.scopes s).cancelCalled = true ∨ (st'.scopes s).deadline ≠ (st.scopes s).deadline :=
+  handle_stays (tinv_reach hr) hm hs
+
+/-- **C06_fires_when_run.**  In a reachable state a timeout callback in the batch can be run as
+soon as no task is running, and running it cancels the scope (if it was not cancelled already) with
+reason "deadline" at the current clock, which has reached the deadline; nothing of `s` is left in
+the loop, and no other scope is cancelled.  (`C06_timeout_run_exact` + the invariant: the re-arm
+branch of `_timeout()` is dead for a handle the loop has popped.) -/
+theorem C06_fires_when_run {st : State} (hr : Reach st) {s : Nat} (hrun : st.running = none)
+    (hm : Handle.timeout s ∈ st.cur) :
+    ∃ st', step st (.run (.timeout s)) = some (st', .none) ∧ st'.now = st.now ∧
+      (∃ d, (st.scopes s).deadline = some d ∧ d ≤ st.now) ∧
+      (st'.scopes s).cancelCalled = true ∧
+      ((st.scopes s).cancelCalled = false →
+        (st'.scopes s).byDeadline = true ∧ (st'.scopes s).cancelTime = st.now) ∧
+      ((st.scopes s).cancelCalled = true →
+        (st'.scopes s).byDeadline = (st.scopes s).byDeadline) ∧
+      (∀ i, i ≠ s → (st'.scopes i).cancelCalled = (st.scopes i).cancelCalled) ∧
+      NoTimeout st' s := by
+  have hen := (C06_timeout_run_enabled_iff st s).2 ⟨hrun, hm⟩
+  cases hst : step st (.run (.timeout s)) with
+  | none => rw [hst] at hen; cases hen
+  | some p =>
+    obtain ⟨st', o⟩ := p
+    obtain ⟨ho, hn, hoth, hfresh, hold, _, _⟩ := C06_timeout_run_exact hst
+    subst ho
+    have hi := tinv_reach hr
+    have hdue := (hi s).cu (List.count_pos_iff.2 hm)
+    have hi' := tinv_step hi hst
+    have hcc' : (st'.scopes s).cancelCalled = true := by
+      cases hc : (st.scopes s).cancelCalled with
+      | true => exact (hold hc).1
+      | false => exact ((hfresh hc).1).2 hdue
+    refine ⟨st', rfl, hn, hdue, hcc', fun hc => ?_, fun hc => (hold hc).2, hoth, ?_⟩
+    · have := (hfresh hc).2 hcc'
+      exact ⟨this.1, this.2.1⟩
+    · apply hi'.noTimeout
+      cases ht : (st'.scopes s).timer with
+      | false => rfl
+      | true =>
+        -- a live timer after the run would have to be in the heap, ahead of the clock, at the
+        -- (unchanged) deadline, which is due
+        exfalso
+        obtain ⟨d, hd, hle⟩ := hdue
+        have hlt : s < st.nScopes := by
+          apply Classical.byContradiction; intro hge
+          have := ((hi s).dflt (by omega)).2.2
+          rw [hd] at this; cases this
+        have h2 : st' = armTimeout (runMid st s) s := by
+          rw [step_run_timeout] at hst
+          split at hst
+          · cases hst
+          · simp only [Option.some.injEq, Prod.mk.injEq] at hst; exact hst.1.symm
+        have hd' : (st'.scopes s).deadline = some d := by
+          obtain ⟨_, _, _, _, hnorm⟩ := tevo_runTimeout hm hi
+          rw [h2, (hnorm s hlt).deadline]; exact hd
+        obtain ⟨f1, _, _, f4, _⟩ := hi'.facts s
+        rcases f1.1 ht with ⟨w, hw⟩ | hc
+        · have := f4 w hw
+          rw [hd', hn] at this
+          simp only [Option.some.injEq] at this
+          omega
+        · -- in the batch: but the only copy was popped
+          have hcnt := (hi s).count
+          have hcur : ∀ h ∈ st'.cur, h ∈ (runMid st s).cur := by
+            rw [h2]; exact (cframe_armTimeout _ _).cur
+          have hmem := hcur _ hc
+          have hone : st.cur.count (Handle.timeout s) ≤ 1 := by
+            split at hcnt <;> omega
+          have : (st.cur.erase (Handle.timeout s)).count (Handle.timeout s) = 0 := by
+            rw [List.count_erase_self]; omega
+          exact absurd hmem (List.count_eq_zero.1 this)
+
+/-! ### 3. never early -/
+
+/-- **C06_by_deadline_due** (step-local "only when").  Whatever the event, if a step out of a
+reachable state turns `byDeadline s` from false to true, then: the clock did not move in that
+step; the scope was not cancelled before and is cancelled now, with cancel time the current clock;
+the scope has been entered (this very step, or earlier and not left since — never before
+`__enter__`, never after `__exit__`); and its deadline — the one in force after the step, which is
+the one in force before it unless the step *is* the assignment `deadline = d` — is finite and has
+been reached. -/
+theorem C06_by_deadline_due {st st' : State} (hr : Reach st) {e : Ev} {o : Out}
+    (hs : step st e = some (st', o)) (s : Nat)
+    (h0 : (st.scopes s).byDeadline = false) (h1 : (st'.scopes s).byDeadline = true) :
+    st'.now = st.now ∧ (st.scopes s).cancelCalled = false ∧ (st'.scopes s).cancelCalled = true ∧
+      (st'.scopes s).cancelTime = st.now ∧ (st'.scopes s).entered = true ∧
+      ((st.scopes s).entered = true → (st.scopes s).active = true) ∧
+      (∃ d, (st'.scopes s).deadline = some d ∧ d ≤ st.now) ∧
+      ((∀ x d, e ≠ .setDeadline x d) → (st'.scopes s).deadline = (st.scopes s).deadline) := by
+  have hi := tinv_reach hr
+  obtain ⟨a, b, c, d, e1, f, g⟩ := bd_step hi hs s h0 h1
+  refine ⟨a, b, c, d, e1, f, g, fun hne => ?_⟩
+  -- the scope existed before the step (a scope created in the step has no deadline)
+  have hlt : s < st.nScopes := by
+    apply Classical.byContradiction
+    intro hge
+    -- a record (re)created in this step has `byDeadline = false`; one not created yet has no deadline
+    cases e with
+    | beginCycle n =>
+      have := (beginCycle_spec hs).2.2.2.2.1
+      rw [this] at h1; rw [h0] at h1; cases h1
+    | setDeadline x d' => exact hne x d' rfl
+    | mkScope sh d' =>
+      simp only [step] at hs
+      simp only [Option.some.injEq, Prod.mk.injEq] at hs
+      obtain ⟨rfl, _⟩ := hs
+      have h1' : (upd st.scopes st.nScopes { exists_ := true, shield := sh, deadline := d' } s).byDeadline
+          = true := h1
+      by_cases hn : s = st.nScopes
+      · subst hn; rw [upd_same] at h1'; cases h1'
+      · rw [upd_other _ _ _ _ hn] at h1'; rw [h0] at h1'; cases h1'
+    | _ =>
+      obtain ⟨_, _, _, hb, _⟩ :=
+        tevo_step hs (by intro n; simp) (by intro s d; simp) (by intro sh d; simp) hi
+      rcases hb s with hb | hb
+      · obtain ⟨d0, hd0, _⟩ := g
+        rw [hb.deadline, ((hi s).dflt (by omega)).2.2] at hd0; cases hd0
+      · rw [hb.2] at h1; cases h1
+  cases e with
+  | setDeadline x d' => exact absurd rfl (hne x d')
+  | beginCycle n =>
+    have := (beginCycle_spec hs).2.2.2.2.1
+    rw [this]
+  | mkScope sh d' =>
+    simp only [step] at hs
+    simp only [Option.some.injEq, Prod.mk.injEq] at hs
+    obtain ⟨rfl, _⟩ := hs
+    show (upd st.scopes st.nScopes _ s).deadline = _
+    rw [upd_other _ _ _ _ (by omega)]
+  | _ =>
+    obtain ⟨_, _, _, _, hb⟩ :=
+      tevo_step hs (by intro n; simp) (by intro s d; simp) (by intro sh d; simp) hi
+    exact (hb s hlt).deadline
+
+/-- **C06_by_deadline_inv.**  In every reachable state a scope marked "cancelled by deadline" is
+cancelled, has been entered, and its cancel time is not in the future. -/
+theorem C06_by_deadline_inv {st : State} (hr : Reach st) (s : Nat)
+    (hb : (st.scopes s).byDeadline = true) :
+    (st.scopes s).cancelCalled = true ∧ (st.scopes s).entered = true ∧
+      (st.scopes s).cancelTime ≤ st.now :=
+  (tinv_reach hr s).bd hb
+
+/-- **C06_never_early.**  The callback is never in a batch before its time and never in the heap
+at any time but the current deadline: in a reachable state `timeout s ∈ cur` implies the scope's
+deadline is due, and `(w, timeout s) ∈ timers` implies `deadline s = w > now`.  Together with
+`C06_timeout_run_exact` (running the callback cancels iff `deadline ≤ now`) and
+`C06_by_deadline_due`, no execution cancels a scope by deadline before the clock reaches it. -/
+theorem C06_never_early {st : State} (hr : Reach st) (s : Nat) :
+    (Handle.timeout s ∈ st.cur → ∃ d, (st.scopes s).deadline = some d ∧ d ≤ st.now) ∧
+    (∀ w, (w, Handle.timeout s) ∈ st.timers → (st.scopes s).deadline = some w ∧ st.now < w) :=
+  let f := (tinv_reach hr).facts s
+  ⟨f.2.2.2.2.1, f.2.2.2.1⟩
+
+/-! ### 4. never after the scope was left -/
+
+/-- **C06_not_after_exit.**  In every reachable state a scope that is not active (never entered,
+or left) has no live timer and no `timeout` callback anywhere in the loop. -/
+theorem C06_not_after_exit {st : State} (hr : Reach st) {s : Nat}
+    (ha : (st.scopes s).active = false) :
+    (st.scopes s).timer = false ∧ NoTimeout st s :=
+  let hi := tinv_reach hr
+  ⟨hi.inactive ha, hi.noTimeout (hi.inactive ha)⟩
+
+/-- ... hence, whatever happens afterwards (any finite event list), a scope that has been left is
+never activated again and its "cancelled by deadline" flag never changes: a deadline that passes
+after `__exit__` cancels nothing. -/
+theorem C06_not_after_exit_forever {st st' : State} (hr : Reach st) {s : Nat}
+    (he : (st.scopes s).entered = true) (ha : (st.scopes s).active = false) (es : List Ev)
+    (h : runFrom step st es = some st') :
+    (st'.scopes s).active = false ∧ (st'.scopes s).byDeadline = (st.scopes s).byDeadline ∧
+      (st'.scopes s).timer = false ∧ NoTimeout st' s := by
+  obtain ⟨_, h2, h3⟩ := exited_runFrom hr he ha es h
+  have hr' := reachable_of_runFrom hr es h
+  exact ⟨h2, h3, C06_not_after_exit hr' h2⟩
+
+/-! ### non-vacuity: concrete runs (task 0 is the root task, running at time 0) -/
+
+section Examples
+
+/-- `with CancelScope(deadline=5): await sleep(10)`: armed on entry, one timer at 5 -/
+example :
+    (runFrom step init [.mkScope false (some 5), .enter 0, .sleep 10]).map
+      (fun st => ((st.scopes 0).timer, (st.scopes 0).cancelCalled, st.timers, st.cur)) =
+    some (true, false, [(5, .timeout 0), (10, .sleepDone 0)], []) := by decide
+
+/-- a cycle at time 4 does not touch it (never early) ... -/
+example :
+    (runFrom step init [.mkScope false (some 5), .enter 0, .sleep 10, .beginCycle 4]).map
+      (fun st => ((st.scopes 0).cancelCalled, st.timers, st.cur)) =
+    some (false, [(5, .timeout 0), (10, .sleepDone 0)], []) := by decide
+
+/-- ... the cycle at time 5 has the callback in its batch (never missed), also a late one at 9 -/
+example :
+    (runFrom step init [.mkScope false (some 5), .enter 0, .sleep 10, .beginCycle 5]).map
+      (fun st => ((st.scopes 0).timer, st.timers, st.cur)) =
+    some (true, [(10, .sleepDone 0)], [.timeout 0]) := by decide
+
+example :
+    (runFrom step init [.mkScope false (some 5), .enter 0, .sleep 10, .beginCycle 4,
+      .beginCycle 9]).map (fun st => (st.timers, st.cur)) =
+    some ([(10, .sleepDone 0)], [.timeout 0]) := by decide
+
+/-- running it cancels the scope by deadline at time 5, wakes the sleeping host with a
+cancellation, and leaves nothing of the scope in the loop -/
+example :
+    (runFrom step init [.mkScope false (some 5), .enter 0, .sleep 10, .beginCycle 5,
+      .run (.timeout 0)]).map
+      (fun st => ((st.scopes 0).cancelCalled, (st.scopes 0).byDeadline, (st.scopes 0).cancelTime,
+        (st.scopes 0).timer)) =
+    some (true, true, 5, false) := by decide
+
+example :
+    (runFrom step init [.mkScope false (some 5), .enter 0, .sleep 10, .beginCycle 5,
+      .run (.timeout 0)]).map (fun st => (st.cur, st.ready, st.futs 0)) =
+    some ([], [.wakeup 0, .deliver 0], .cancelled true) := by decide
+
+/-- the cancelled `sleep` is absorbed by the scope's `__exit__`: `cancelled_caught` -/
+example :
+    (runFrom step init [.mkScope false (some 5), .enter 0, .sleep 10, .beginCycle 5,
+      .run (.timeout 0), .beginCycle 5, .run (.wakeup 0), .exit 0 (.one .cancelAnyio)]).map
+      (fun st => ((st.scopes 0).caught, (st.scopes 0).active, st.timers)) =
+    some (true, false, []) := by decide
+
+/-- entering with a deadline that has already passed: cancelled on entry, reason "deadline",
+no timer -/
+example :
+    (runFrom step init [.mkScope false (some 3), .yield, .beginCycle 5, .run (.step 0),
+      .enter 0]).map
+      (fun st => ((st.scopes 0).cancelCalled && (st.scopes 0).byDeadline,
+        (st.scopes 0).cancelTime, (st.scopes 0).timer, st.timers)) =
+    some (true, 5, false, []) := by decide
+
+/-- `deadline = 8` re-arms: the timer at 5 is gone, one at 8 -/
+example :
+    (runFrom step init [.mkScope false (some 5), .enter 0, .setDeadline 0 (some 8)]).map
+      (fun st => ((st.scopes 0).timer, st.timers)) =
+    some (true, [(8, .timeout 0)]) := by decide
+
+/-- `deadline = inf` disarms -/
+example :
+    (runFrom step init [.mkScope false (some 5), .enter 0, .setDeadline 0 none]).map
+      (fun st => ((st.scopes 0).timer, st.timers)) =
+    some (false, []) := by decide
+
+/-- `deadline = 2` at time 5 cancels on the spot, reason "deadline" -/
+example :
+    (runFrom step init [.mkScope false none, .yield, .beginCycle 5, .run (.step 0), .enter 0,
+      .setDeadline 0 (some 2)]).map
+      (fun st => ((st.scopes 0).cancelCalled, (st.scopes 0).byDeadline, (st.scopes 0).cancelTime)) =
+    some (true, true, 5) := by decide
+
+/-- the deadline was moved after the callback entered the batch: the handle is cancelled, nothing
+fires at the old deadline -/
+example :
+    (runFrom step init [.mkScope false (some 5), .enter 0, .yield, .beginCycle 5, .run (.step 0),
+      .setDeadline 0 (some 9)]).map
+      (fun st => ((st.scopes 0).cancelCalled, st.cur, st.timers)) =
+    some (false, [], [(9, .timeout 0)]) := by decide
+
+/-- `__exit__` before the deadline cancels the timer; the deadline passing later does nothing -/
+example :
+    (runFrom step init [.mkScope false (some 5), .enter 0, .exit 0 .none, .yield,
+      .beginCycle 7]).map
+      (fun st => ((st.scopes 0).timer, (st.scopes 0).cancelCalled, st.timers, st.cur)) =
+    some (false, false, [], [.step 0]) := by decide
+
+/-- an explicit `cancel()` cancels the timer too -/
+example :
+    (runFrom step init [.mkScope false (some 5), .enter 0, .cancel 0]).map
+      (fun st => ((st.scopes 0).timer, (st.scopes 0).byDeadline, st.timers)) =
+    some (false, false, []) := by decide
+
+end Examples
+
+end AnyioModel.Kernel
